@@ -728,7 +728,7 @@ def feel_binding(v):
     """Case value -> binding json understood by the driver's scope reader (function values as FEEL literals)."""
     if isinstance(v, dict):
         if "fn" in v:
-            ps = ", ".join("p%d: %s" % (i, R.show(strip_empty_context(R.from_case(p)))) for i, p in enumerate(v["fn"]["params"]))
+            ps = ", ".join("q%d: %s" % (9 - i, R.show(strip_empty_context(R.from_case(p)))) for i, p in enumerate(v["fn"]["params"]))
             return {"feel": "function(%s) null" % ps}
         if "l" in v:
             return {"l": [feel_binding(x) for x in v["l"]]}
